@@ -628,11 +628,21 @@ class Arbiter:
 
     def spawn_worker(self):
         self.worker_age += 1
-        worker = self.worker_class(self.worker_age, self.pid, self.LISTENERS,
-                                   self.app, self.timeout / 2.0,
-                                   self.cfg, self.log)
-        self.cfg.pre_fork(self, worker)
-        pid = os.fork()
+        worker = None
+        try:
+            worker = self.worker_class(self.worker_age, self.pid,
+                                       self.LISTENERS, self.app,
+                                       self.timeout / 2.0, self.cfg, self.log)
+            self.cfg.pre_fork(self, worker)
+            pid = os.fork()
+        except OSError as e:
+            # out of processes, memory, descriptors or disk space right now:
+            # the server goes on with the workers it has, and the next round
+            # of manage_workers() tries again
+            self.log.error("Could not start a worker: %s", e)
+            if worker is not None:
+                worker.tmp.close()
+            return None
         if pid != 0:
             worker.pid = pid
             self.WORKERS[pid] = worker
